@@ -197,6 +197,11 @@ Unmapped(k) == {w \in kern[k].wgs : <<k, w>> \notin DOMAIN mapOf}
 Starved == \E k \in DOMAIN kern : /\ kern[k].st = "running" /\ Unmapped(k) # {}
                                   /\ \E c \in kern[k].fit : live[c] = {}
 
+\* a work-group waits although nothing is resident or in flight anywhere: nothing would ever wake the CP
+Stuck == /\ \E k \in DOMAIN kern : kern[k].st = "running" /\ Unmapped(k) # {} /\ kern[k].fit # {}
+         /\ \A c \in 1..NCU : live[c] = {}
+         /\ toCU = <<>> /\ cuIn = <<>>
+
 \* full-state versions (used on the small design model to cross-check the incremental rules)
 LiveWfs(c) == UNION {Wfs(m) : m \in live[c]}
 NoOverlapFull ==
